@@ -36,6 +36,9 @@ class EqInfo:
         self.len_checked = set()
         self.nan_unaware = []  # (attr, node, how)
         self.elementwise = []  # (attr, node)
+        self.inverted = []  # (attrs, conjunct) comparisons whose sense is inverted
+        self.covered_direct = set()
+        self.closed_to_own_class = False
         self._parse()
 
     def _expand(self, attr):
@@ -98,18 +101,28 @@ class EqInfo:
             if norm(leaf) == "NotImplemented":
                 continue
             def strip(t, pol):
+                """canonical (text, truth value): negations and `!=` folded into the truth value"""
                 while isinstance(t, ast.UnaryOp) and isinstance(t.op, ast.Not):
                     t, pol = t.operand, not pol
-                return t, pol
-            if any(norm(strip(t, pol)[0]) == norm(leaf) and not strip(t, pol)[1] for t, pol in guards):
-                continue  # `if not c: return c`
+                if isinstance(t, ast.Compare) and len(t.ops) == 1 and isinstance(t.ops[0], (ast.NotEq, ast.IsNot)):
+                    flip = ast.Eq() if isinstance(t.ops[0], ast.NotEq) else ast.Is()
+                    t, pol = ast.Compare(left=t.left, ops=[flip], comparators=t.comparators), not pol
+                return norm(t), pol
+            lt, lp = strip(leaf, True)
+            if any(strip(t, pol)[0] == lt and strip(t, pol)[1] != lp for t, pol in guards):
+                continue  # `if not c: return c`: the returned value is known to be false on this path
             conj = []
             for t, pol in guards:
                 while isinstance(t, ast.UnaryOp) and isinstance(t.op, ast.Not):
                     t, pol = t.operand, not pol
                 if isinstance(t, ast.Call) and isinstance(t.func, ast.Name) and t.func.id in ("__loop__", "__except__"):
                     continue
-                conj += conjuncts(t) if pol else [t]
+                if pol:
+                    conj += conjuncts(t)
+                else:
+                    # the test must be FALSE on this path: remember that (an `a != b` that must be false requires a == b)
+                    t._sa_required_false = True
+                    conj.append(t)
             if not (isinstance(leaf, ast.Constant) and leaf.value is True):
                 conj += conjuncts(leaf)
             out.append((conj, pe.node))
@@ -126,26 +139,73 @@ class EqInfo:
             return
         self.ret = paths[-1][1]
         covered_sets = []
+        direct_sets = []
         for conj, node in paths:
             cov = {}
+            direct = set()
             for cj in conj:
                 if all(cj is not x for x in self.conj):
                     self.conj.append(cj)
+                n_inv = len(self.inverted)
                 self._conjunct(cj, cov)
+                if len(self.inverted) == n_inv and not (isinstance(cj, ast.BoolOp) and isinstance(cj.op, ast.Or)):
+                    direct |= attrs_of(cj, self.sn) & attrs_of(cj, self.on)
             covered_sets.append(cov)
+            direct_sets.append(direct)
         common = set(covered_sets[0])
         for cov in covered_sets[1:]:
             common &= set(cov)
         for a in common:
             self.covered[a] = covered_sets[0][a]
+        self.covered_direct = set.intersection(*direct_sets) if direct_sets else set()
+        # a path that answers True must be open to objects of the class itself
+        from ..facts import type_facts
+        self.closed_to_own_class = False
+        for guards, leaf, pe in facts.return_leaves(fn):
+            if leaf is None or (isinstance(leaf, ast.Constant) and not leaf.value) or norm(leaf) == "NotImplemented":
+                continue
+            tf = type_facts(guards, self.on)
+            if tf.get(self.c.name) is False:
+                self.closed_to_own_class = True
+
+    def _requires_equality(self, cj):
+        """does the conjunct, holding as required on a path that returns true, demand that the compared operands are EQUAL?
+        (False for `a != b` required true or `a == b` required false: such a method calls different objects equal)"""
+        neg = getattr(cj, "_sa_required_false", False)
+        t = cj
+        while isinstance(t, ast.UnaryOp) and isinstance(t.op, ast.Not):
+            t, neg = t.operand, not neg
+        if isinstance(t, ast.Compare) and len(t.ops) == 1:
+            if isinstance(t.ops[0], (ast.Eq, ast.Is)):
+                return not neg
+            if isinstance(t.ops[0], (ast.NotEq, ast.IsNot)):
+                return neg
+            return None
+        if isinstance(t, ast.Call):
+            fn = norm(t.func)
+            if fn in ("np.array_equal", "np.allclose", "numpy.array_equal", "numpy.allclose", "all", "np.all", "numpy.all"):
+                if fn in ("all", "np.all", "numpy.all") and t.args and isinstance(t.args[0], (ast.GeneratorExp, ast.ListComp)):
+                    e = t.args[0].elt
+                    if isinstance(e, ast.Compare) and len(e.ops) == 1 and isinstance(e.ops[0], (ast.NotEq, ast.IsNot)):
+                        return neg
+                return not neg
+            if fn in ("any",):
+                return None
+        return None
 
     def _conjunct(self, cj, covered):
         sn, on = self.sn, self.on
+        if isinstance(cj, ast.BoolOp) and isinstance(cj.op, ast.Or) and not getattr(cj, "_sa_required_false", False):
+            return  # a disjunction demands none of its members
         if True:
             sa, oa = attrs_of(cj, sn), attrs_of(cj, on)
             both = set()
             for a in sa & oa:
                 both |= self._expand(a)
+            req = self._requires_equality(cj)
+            if both and req is False:
+                self.inverted.append((sorted(both), cj))
+                return
             for a in both:
                 covered.setdefault(a, cj)
             # length conjunct
@@ -308,6 +368,12 @@ def run(prog, rep):
         if info.byte_level:
             rep.ok("eq-coverage", f"{fq}: byte-level (both operands serialised and compared) - faithful by construction given C01", nontrivial=True)
             continue
+        if info.closed_to_own_class:
+            rep.fail("eq-coverage", mod, fq, getattr(info, "ret", f.node), f"no path that answers True is open to another {c.name}: objects with the same content never compare equal",
+                     construct=f"{fq} :: closed to {c.name}")
+        for attrs, cj in info.inverted:
+            rep.fail("eq-coverage", mod, fq, getattr(info, "ret", f.node), f"`{norm(cj)[:80]}` must hold for the objects to be called equal: the comparison of {attrs} is inverted "
+                     "(objects that differ there compare equal, identical ones do not)", construct=f"{fq} :: inverted {attrs}")
         reads = writer_attr_reads(prog, u)
         for a in sorted(reads):
             if a == "format":
@@ -370,9 +436,12 @@ def run(prog, rep):
     f = prog.need_method(tdf, "__eq__")
     info = EqInfo(prog, tdf, f)
     need = {"version", "nEntries", "blocks"}
-    cov = set()
-    for cj in info.conj:
-        cov |= attrs_of(cj, info.sn) & attrs_of(cj, info.on)
+    cov = set(info.covered_direct)
+    if info.closed_to_own_class:
+        rep.fail("eq-file", "basictdf.py", "Tdf.__eq__", getattr(info, "ret", f.node), "no path that answers True is open to another Tdf: two files with the same content never compare equal",
+                 construct="Tdf.__eq__ :: closed to Tdf")
+    for attrs, cj in info.inverted:
+        rep.fail("eq-file", "basictdf.py", "Tdf.__eq__", getattr(info, "ret", f.node), f"`{norm(cj)[:80]}`: the comparison of {attrs} is inverted", construct=f"Tdf.__eq__ :: inverted {attrs}")
     if need <= cov:
         rep.ok("eq-file", "Tdf.__eq__ conjoins version, nEntries and blocks", nontrivial=True)
     else:
